@@ -1,7 +1,7 @@
 \* manual run of one domain (bin/check C09 writes the per-mode / per-tier configurations into build/):
 \*   cd spec && C09_OUT= java -cp <jars> tlc2.TLC -config NameUriMC.cfg NameUriMC
 SPECIFICATION Spec
-CONSTANTS Mode = "comp" NR = 14 NQ = 4
+CONSTANTS Mode = "comp" NR = 14 NQ = 4 NP = 6
 INVARIANT I_CompShort
 INVARIANT I_CompCanon
 INVARIANT I_CanonNoShorthand
